@@ -97,6 +97,7 @@ type c18gen struct {
 	last    *stree // previous regular file (for duplicates)
 	spell   int    // spelling of the source argument (directory sources only), see c18Spellings
 	multi   bool   // pass every top-level entry of the tree as its own source argument
+	outv    int    // > 0: spelling of the output location, see c18Outputs
 	nodes   int
 	feat    map[string]bool
 	maxDep  int
@@ -245,8 +246,20 @@ func (g *c18gen) emitTree(t *stree, p VL, fs *VL) Val {
 // contents then land directly in the output directory, as with --no-wrap)
 var c18Spellings = []string{"src/%", "/SB/src/%", "src/%/", "./src/%", "src//%", "src/../src/%", "/SB/src/%/", "./src/%//", "src/./%", "src/%/."}
 
+// where the archive is extracted to: /SB/out, named directly, through a symlink to it (relative and
+// absolute link), below a symlinked parent, with dot-dot through a link, or not named at all: the
+// tool then extracts into its working directory, entered through its logical ($PWD) path
+type c18Output struct {
+	arg   string
+	noArg bool
+}
+
+var c18Outputs = []c18Output{{"out", false}, {"/SB/out", false}, {"olnk", false}, {"/SB/olnk", false}, {"plnk/out", false},
+	{"/SB/plnk/out", false}, {"alnk", false}, {"olnk/", false}, {"plnk/olnk/../out", false},
+	{"/SB/olnk", true}, {"/SB/plnk/out", true}, {"/SB/out", true}, {"/SB/alnk", true}}
+
 func c18Case(c *Ctx, g *c18gen, top []byte, t *stree, version uint64, nowrap bool, mode uint64, absSrc, absOut bool, label string) {
-	fs := VL{fsDir(), fsDir("src"), fsDir("out")}
+	fs := VL{fsDir(), fsDir("src"), fsDir("out"), fsLink("out", "olnk"), fsLink("/SB/out", "alnk"), fsLink(".", "plnk")}
 	srcPath := VL{VB(sbName), VB([]byte("src")), VB(top)}
 	g.recipes = VL{}
 	u := g.emitTree(t, srcPath, &fs)
@@ -264,9 +277,9 @@ func c18Case(c *Ctx, g *c18gen, top []byte, t *stree, version uint64, nowrap boo
 			// a file of at most one chunk is a single raw block: the root has the raw codec and
 			// `car extract` skips raw roots
 			roots = VL{VL{VT("raw")}}
-			dst = VL{VT("skip")}
+			dst = VL{VT("skip"), outP}
 		default:
-			dst = VL{VT("skip")}
+			dst = VL{VT("skip"), outP}
 		}
 	} else {
 		roots = VL{VL{VT("n"), VL{VT("d"), VL{VL{VB(top), u}}}}}
@@ -313,8 +326,30 @@ func c18Case(c *Ctx, g *c18gen, top []byte, t *stree, version uint64, nowrap boo
 	if absOut {
 		outdir = []byte("/SB/out")
 	}
-	opts := VL{VN(version), vbool(nowrap), VN(mode)}
-	in := VL{fs, VL{VB(sbName)}, VB(outdir), VB(nil), roots, opts, VL{srcArgV, g.recipes}, srcPath, dst}
+	noArg := false
+	cwdV := VL{VB(sbName)}
+	if g.outv > 0 {
+		o := c18Outputs[g.outv%len(c18Outputs)]
+		outdir = []byte(o.arg)
+		noArg = o.noArg
+		c.Count("output-location:" + o.arg + map[bool]string{true: " (cwd, no argument)", false: ""}[noArg])
+		if noArg {
+			// the working directory of the extraction is the output directory; sources are then
+			// named absolutely
+			cwdV = VL{VB(sbName), VB([]byte("out"))}
+			if a, ok := srcArgV.(VB); ok && !bytes.HasPrefix(a, []byte("/")) {
+				srcArgV = VB(append([]byte("/SB/"), bytes.TrimPrefix(a, []byte("./"))...))
+			} else if l, ok := srcArgV.(VL); ok {
+				nl := VL{}
+				for _, x := range l {
+					nl = append(nl, VB(append([]byte("/SB/"), vb(x)...)))
+				}
+				srcArgV = nl
+			}
+		}
+	}
+	opts := VL{VN(version), vbool(nowrap), VN(mode), vbool(noArg)}
+	in := VL{fs, cwdV, VB(outdir), VB(nil), roots, opts, VL{srcArgV, g.recipes}, srcPath, dst}
 	obs := runCreateExtractCase(c, in)
 	c.Count("kind:" + label)
 	c.Count("version:" + string(rune('0'+version)))
@@ -378,6 +413,11 @@ func init() {
 				g.nodes = 7
 				c18Case(c, g, []byte("photos"), small(), 1+uint64(sp%2), nowrap, uint64(sp%3), false, sp%2 == 0, "directed:source-spelling")
 			}
+		}
+		for ov := 2; ov < len(c18Outputs); ov++ {
+			g := &c18gen{r: r.Fork(), c: c, feat: map[string]bool{"output-through-symlink": true, "empty-dir": true, "symlink": true}, maxDep: 3, outv: ov}
+			g.nodes = 7
+			c18Case(c, g, []byte("photos"), small(), 1+uint64(ov%2), ov%3 == 0, uint64(ov%3), false, false, "directed:output-location")
 		}
 		for k := 0; k < 3; k++ {
 			g := &c18gen{r: r.Fork(), c: c, feat: map[string]bool{"multiple-sources": true, "empty-dir": true, "symlink": true}, maxDep: 3, multi: true}
@@ -524,6 +564,10 @@ func init() {
 				g.spell = 1 + gr.Intn(len(c18Spellings)-1)
 				g.feat["source-spelling"] = true
 			}
+			if gr.Chance(35) {
+				g.outv = 2 + gr.Intn(len(c18Outputs)-2)
+				g.feat["output-through-symlink"] = true
+			}
 			if t.kind == 'd' && len(t.ents) > 0 && gr.Chance(12) {
 				g.multi = true
 				g.feat["multiple-sources"] = true
@@ -557,6 +601,40 @@ func init() {
 				}
 			}
 			c18Case(c, g, top, t, 1+uint64(gr.Intn(2)), gr.Chance(30), uint64(gr.Intn(3)), gr.Chance(30), gr.Chance(30), "random")
+		}
+		// ---- a tree of more than 26 214 blocks: the sorted index of the CARv2 then has a sha2-256 bucket
+		// larger than 1 MiB (read in chunks by index.ReadFrom); too large for the list-based fs model,
+		// so the tree comparison is done here and the model predicts status and count
+		// (kind createextractlarge)
+		{
+			gr := r.Fork()
+			nd := 30 + gr.Intn(4)
+			ents := VL{}
+			for d := 0; d < nd; d++ {
+				fl := VL{}
+				for f := 0; f < 940; f++ {
+					nm := "f" + itoa(f)
+					fl = append(fl, VL{VB([]byte(nm)), VL{VT("f"), VB([]byte("d" + itoa(d) + "-" + nm + "-" + itoa(int(gr.U64()%1000))))}})
+				}
+				fl = append(fl, VL{VB([]byte("l")), VL{VT("l"), VB([]byte("f0"))}}, VL{VB([]byte("z-empty")), VL{VT("d"), VL{}}})
+				ents = append(ents, VL{VB([]byte("d" + itoa(d))), VL{VT("d"), fl}})
+			}
+			tree := VL{VT("d"), ents}
+			// quick: the archive is assembled here (same store session as `car create`), one
+			// sub-directory is extracted with --path; thorough: the real create + full extraction too
+			for k, mode := range []uint64{0, 2} {
+				in := VL{tree, VL{VN(2), VN(1), VN(mode), VN(1), VB([]byte("d" + itoa(7+k)))}}
+				obs := runCreateExtractLargeCase(c, in)
+				c.Count("kind:large-archive-over-26214-blocks")
+				c.Emit("createextractlarge", in, obs, true)
+			}
+			if c.Thorough {
+				for _, mode := range []uint64{0, 1} {
+					in := VL{tree, VL{VN(2), vbool(mode == 1), VN(mode), VN(0), VB(nil)}}
+					c.Count("kind:large-tree-create-extract")
+					c.Emit("createextractlarge", in, runCreateExtractLargeCase(c, in), true)
+				}
+			}
 		}
 		// ---- many siblings (directory sharding: sum of name+cid lengths > 256 KiB)
 		nShard := 0
